@@ -391,3 +391,76 @@ Proof.
   - intros d. bal_rw. rewrite Hdo. ledger.
   - repeat split; reflexivity.
 Qed.
+
+Lemma xfer_zero f t d a x : xfer f t d 0 a x = 0.
+Proof. unfold xfer. destruct (_ && _), (_ && _); lia. Qed.
+
+Lemma stable_withdraw_effect c s f a e id amt s' :
+  cfg_ok c -> ProdsExist s ->
+  msg_stable_withdraw c s f a e id amt = Ok s' ->
+  exists x0 ep tout upd, find_sv (svaults s) id = Some x0 /\ get_ep c e = Some ep /\ sv_pair x0 = e /\ sv_app x0 = a /\ 0 < amt /\
+    0 < upd /\ upd = amt - feeq amt (ep_ddf ep) /\ 0 <= tout /\
+    other_token (ep_dec_out ep) upd (ep_dec_in ep) = Some tout /\
+    effect c s s' f (SUpd x0 (mkSV (sv_id x0) (sv_app x0) (sv_pair x0) (sv_in x0 - tout) (sv_out x0 - upd))) (feeq amt (ep_ddf ep)).
+Proof.
+  intros [_ CK] PE H. unfold msg_stable_withdraw in H. cbv zeta in H.
+  do 9 exec1 H.
+  pose proof (prods_exist_sv _ _ _ PE M0) as Hpf.
+  exec_checks H. bool_norm.
+  pose proof (get_ep_id _ _ _ M) as Hid. pose proof (find_sv_id _ _ _ M0) as Hxid.
+  replace (sv_app s0) with a in Hpf by congruence. replace (sv_pair s0) with e in Hpf by congruence.
+  assert (Hamt : 0 < amt) by lia.
+  assert (G : (amt >? 0) = true) by lia.
+  destruct (CK _ (get_ep_in _ _ _ M)) as (Hddf & Hio & Hcl).
+  destruct (feeq_bounds amt (ep_ddf e0) ltac:(lia) Hddf) as [Hfb Hfb2]. specialize (Hfb2 Hamt).
+  pose proof (denom_in_ep _ _ _ M) as Hdi. pose proof (denom_out_ep _ _ _ M) as Hdo.
+  replace e with (sv_pair s0) in Hdi, Hdo by congruence.
+  exec1 H. apply csend_spec in E. destruct E as (b1 & -> & Hb1).
+  exec1 H. destruct st as [[s3 tout] upd].
+  assert (E' : exists b2 sp2, s3 = set_sup (set_bal s b2) sp2 /\ 0 <= tout /\ upd = amt - feeq amt (ep_ddf e0) /\
+               other_token (ep_dec_out e0) upd (ep_dec_in e0) = Some tout /\
+               (forall a' x, b2 a' x = b1 a' x + xfer VAULT COLL (ep_out e0) (feeq amt (ep_ddf e0)) a' x
+                                        - at2 VAULT (ep_out e0) upd a' x + xfer VAULT f (ep_in e0) tout a' x) /\
+               (forall x, sp2 x = sup s x - at1 (ep_out e0) upd x)).
+  { rewrite G in E. destruct (Z.eqb_spec (ep_ddf e0) 0) as [Ez|Ez]; cbn [andb] in E.
+    - exec1 E. apply burn_spec in E0. destruct E0 as (_ & b2 & sp2 & -> & Hb2 & Hs2).
+      exec1 E. apply send_spec in E0. destruct E0 as (Ht0 & b3 & -> & Hb3).
+      injection E as <- <- <-. rewrite Ez, feeq_zero.
+      exists b3, sp2. split; [reflexivity|]. split; [exact Ht0|]. split; [lia|]. split; [exact M1|].
+      split; [|exact Hs2]. intros a' x. rewrite Hb3. ssimpl. rewrite Hb2. ssimpl.
+      rewrite xfer_zero. lia.
+    - destruct (fee_share amt (ep_ddf e0)) as [sh|] eqn:F; [|discriminate].
+      pose proof (fee_share_val _ _ _ F) as ->.
+      exec1 E.
+      assert (E1 : exists b2, st = set_bal (set_bal s b1) b2 /\ forall a' x, b2 a' x = b1 a' x + xfer VAULT COLL (ep_out e0) (feeq amt (ep_ddf e0)) a' x).
+      { destruct (Z.gtb_spec (feeq amt (ep_ddf e0)) 0).
+        - exec1 E0. apply send_spec in E1. destruct E1 as (_ & b2 & -> & Hb2).
+          apply update_collector_spec in E0. destruct E0 as [_ ->]. exists b2. split; [reflexivity|exact Hb2].
+        - injection E0 as <-. exists b1. split; [reflexivity|]. intros a' x.
+          replace (feeq amt (ep_ddf e0)) with 0 by lia. unfold xfer. destruct (_ && _), (_ && _); lia. }
+      destruct E1 as (b2 & -> & Hb2). clear E0.
+      destruct (Z.gtb_spec (amt - feeq amt (ep_ddf e0)) 0); [|lia].
+      exec1 E. apply burn_spec in E0. destruct E0 as (_ & b3 & sp3 & -> & Hb3 & Hs3).
+      exec1 E. exec1 E. apply send_spec in E0. destruct E0 as (Ht0 & b4 & -> & Hb4).
+      injection E as <- <- <-.
+      exists b4, sp3. split; [reflexivity|]. split; [exact Ht0|]. split; [reflexivity|]. split; [exact M2|].
+      split; [|exact Hs3]. intros a' x. rewrite Hb4. ssimpl. rewrite Hb3. ssimpl. rewrite Hb2. reflexivity. }
+  destruct E' as (b2 & sp2 & -> & Ht0 & Hupd & Hot & Hb2 & Hs2).
+  injection H as <-. ssimpl.
+  match goal with |- context [upd_coll ?st ?a0 ?p0 ?m ?ad] =>
+    destruct (upd_coll_spec st a0 p0 m ad Hpf) as (f1 & -> & Hf11 & Hf12 & Hf13 & Hf14) end.
+  match goal with |- context [upd_mint ?st ?a0 ?p0 ?m ?ad] =>
+    assert (Hpf2 : pfound st a0 p0 = true) by (prod_rw; rewrite <- pfound_f; exact Hpf);
+    destruct (upd_mint_spec st a0 p0 m ad Hpf2) as (f2 & -> & Hf21 & Hf22 & Hf23 & Hf24) end.
+  exists s0, e0, tout, upd. repeat (split; [first [reflexivity|congruence|lia|assumption]|]).
+  constructor; ssimpl; bc_simpl; try reflexivity.
+  - repeat split; congruence.
+  - intros a' p'. prod_rw. rewrite andb_false_r, orb_false_r. reflexivity.
+  - intros a' p'. prod_rw. eqb_cases.
+  - intros a' p'. prod_rw. eqb_cases.
+  - intros a' p'. prod_rw. eqb_cases.
+  - lia.
+  - intros a' x. bal_rw. rewrite Hdi, Hdo. ledger.
+  - intros d. bal_rw. rewrite Hdo. ledger.
+  - repeat split; reflexivity.
+Qed.
